@@ -484,7 +484,7 @@ PLANS.update({
 def A_codec(name, level, **kw):
     def run(ctx):
         consts = {'Level': level, 'EmitOn': 'TRUE', 'MaxNest': 10000, 'MaxDepth': 10000}
-        run_A(ctx, 'MCCodec', name, consts, invariants=('ParseEnc', 'SortedIsEqual', 'TransducersOnEnc'), spec='CSpec', **kw)
+        run_A(ctx, 'MCCodec', name, consts, invariants=('ParseEnc', 'SortedIsEqual', 'TransducersOnEnc'), spec='CSpec', rworkers=2, **kw)
     return run
 
 
@@ -503,7 +503,7 @@ PLANS.update({
         'assumptions': TEXT_ASSUME + ['struct types with tags, embedding and the Decoder/Encoder token stream are NOT modelled by the '
                                       'specification: for them C17 is covered only by the differential comparison with encoding/json in the '
                                       'C17 struct stage (see DESIGN.md section 8)'],
-        'required_labels': {t: ['Word_invalid', 'Word_valid_obj', 'Word_valid_str', 'Enc_obj', 'Enc_str', 'Enc_num'] for t in ('quick', 'thorough')},
+        'required_labels': {t: ['Word_invalid', 'Word_valid_obj', 'Word_valid_str', 'Enc_obj', 'Enc_str', 'Enc_num', 'StreamDecoded'] for t in ('quick', 'thorough')},
     },
 })
 
